@@ -84,7 +84,8 @@ impl<'a> RenumVisitor<'a> {
             Integer(col, n) => (col, *n as f64),
             _ => return,
         };
-        if n > LineNumber::max_value() as f64 {
+        // An omitted operand (RESTORE, RUN, LIST and DELETE defaults) has no text to rewrite.
+        if col.is_empty() || n < 0.0 || n > LineNumber::max_value() as f64 {
             return;
         }
         let n = n as u16;
